@@ -326,8 +326,13 @@ SdesAltOk(v) ==
     /\ \A i \in 1..Len(v.chunks) :
           AltOk([j \in 1..Len(v.chunks[i].items) |-> << v.chunks[i].items[j].type, v.chunks[i].items[j].value.o >>],
                 v.chunks[i].items_alt)
+\* for very long item lists the reported items serve as (validated) hints to the tokeniser, see Wire!SdesItemsWalkH
+SdesHints(v, base) ==
+    IF \E i \in 1..Len(v.chunks) : Len(v.chunks[i].items) > 1500
+    THEN [i \in 1..Len(v.chunks) |-> [j \in 1..Len(v.chunks[i].items) |-> GotTok(v.chunks[i].items[j], base)]]
+    ELSE <<>>
 SdesFieldsOk(b, v, base) ==
-    LET vd == SdesVerdict(b)
+    LET vd == SdesVerdictH(b, SdesHints(v, base))
     IN  /\ SdesAltOk(v)
         /\ CASE vd.v = "must" ->
                 /\ Len(v.chunks) = Len(vd.chunks)
@@ -369,13 +374,13 @@ MustAccept(kind, b) ==
             /\ CanAccept(kind, b) /\ RegularPad(b, MinLen(kind) + 24 * Count(b))
             /\ AllZero(b, Len(b) - PadCount(b) + 1, Len(b) - 1)
       [] kind \in {"tfb", "pfb"} -> CanAccept(kind, b) /\ RegularPad(b, 12) /\ AllZero(b, Len(b) - PadCount(b) + 1, Len(b) - 1)
-      [] kind = "sdes" -> CanAccept(kind, b) /\ SdesVerdict(b).v = "must"
+      [] kind = "sdes" -> CanAccept(kind, b) /\ Len(b) <= 40000 /\ SdesVerdict(b).v = "must"
                           /\ AllZero(b, Len(b) - PadCount(b) + 1, Len(b) - 1)
       [] kind = "unknown" -> FramedUnknown(b)
       [] kind = "rb" -> Len(b) = 24
       [] OTHER -> FALSE
 MustReject(kind, b) ==
-    CASE kind = "sdes" -> Framed(4, PT_SDES, b) /\ SdesVerdict(b).v = "reject"
+    CASE kind = "sdes" -> Framed(4, PT_SDES, b) /\ Len(b) <= 40000 /\ SdesVerdict(b).v = "reject"
       [] OTHER -> FALSE
 
 ParseErrOk(kind, b, res) ==
